@@ -303,7 +303,7 @@ class PDFContentParser(PSStackParser[Union[PSKeyword, PDFStream]]):
                 self.charpos += 1
                 if (
                     len(target) <= i
-                    and c.isspace()
+                    and (c.isspace() or c == b"\x00")
                     or i < len(target)
                     and c == (bytes((target[i],)))
                 ):
